@@ -118,15 +118,15 @@ def run_program(case, mutations_on):
                         applied[0] += 1
 
             def make_fn(i, op):
-                def fn(b, *args):
+                def fn(b, *args, **kwargs):
                     log.append(i)
                     if op['kind'] == 'file':
                         path, args = args[0], args[1:]
                         with open(path, 'w') as fh:
                             fh.write('o%d' % i)
                         os.utime(path, ns=(10 ** 18 + i, 10 ** 18 + i))
-                    seen_args = copy.deepcopy(list(args))
-                    for a in args:
+                    seen_args = copy.deepcopy([list(args), kwargs])
+                    for a in list(args) + list(kwargs.values()):
                         if isinstance(a, (list, dict)):
                             maybe(i, 'args_in_callee', a)
                     extra = None
@@ -146,7 +146,7 @@ def run_program(case, mutations_on):
                     nested = None
                     if op.get('child') is not None:
                         ch = op['child']
-                        r = b.subbuild('child%d' % i, make_fn(100 + i, ch), *copy.deepcopy(ch['args']))
+                        r = b.subbuild('child%d' % i, make_fn(100 + i, ch), *copy.deepcopy(ch['args']), **copy.deepcopy(ch.get('kwargs', {})))
                         nested = copy.deepcopy(r)
                         maybe(i, 'nested_ret', r)
                     ret = {'ret': copy.deepcopy(op['ret']), 'args': seen_args, 'extra': extra, 'nested': nested}
@@ -158,14 +158,15 @@ def run_program(case, mutations_on):
                 obs = []
                 for i, op in enumerate(case['ops']):
                     args = copy.deepcopy(op['args'])
+                    kwargs = copy.deepcopy(op.get('kwargs', {}))
                     if op['kind'] == 'file':
-                        r = b.build_file(os.path.join(R, 'out', 'o%d' % i), 'f%d' % i, make_fn(i, op), *args)
+                        r = b.build_file(os.path.join(R, 'out', 'o%d' % i), 'f%d' % i, make_fn(i, op), *args, **kwargs)
                     else:
-                        r = b.subbuild('f%d' % i, make_fn(i, op), *args)
+                        r = b.subbuild('f%d' % i, make_fn(i, op), *args, **kwargs)
                     obs.append(copy.deepcopy(r))
-                    if args != op['args']:
+                    if args != op['args'] or kwargs != op.get('kwargs', {}):
                         obs.append('CALLER-ARGS-CHANGED')
-                    for a in args:
+                    for a in args + list(kwargs.values()):
                         if isinstance(a, (list, dict)):
                             maybe(i, 'args_caller_after', a)
                     maybe(i, 'ret_to_caller', r)
@@ -248,18 +249,20 @@ def cases(draw):
     for _ in range(draw(st.integers(1, 4))):
         op = {'kind': draw(st.sampled_from(['sub', 'sub', 'file'])),
               'args': draw(st.lists(st.one_of(container, leaf), max_size=2)),
+              'kwargs': draw(st.dictionaries(st.sampled_from(['kw', 'opt']), st.one_of(container, container, leaf), max_size=2)),
               'ret': draw(st.one_of(container, container, leaf)),
               'query': draw(st.sampled_from([None, None, 'list_dir', 'walk']))}
         if draw(st.sampled_from(range(3))) == 0:
-            op['child'] = {'kind': 'sub', 'args': draw(st.lists(container, max_size=1)), 'ret': draw(container), 'query': None}
+            op['child'] = {'kind': 'sub', 'args': draw(st.lists(container, max_size=1)), 'ret': draw(container), 'query': None,
+                           'kwargs': draw(st.dictionaries(st.sampled_from(['kw']), container, max_size=1))}
         ops.append(op)
     muts = []
     for _ in range(draw(st.integers(1, 3))):
         i = draw(st.integers(0, len(ops) - 1))
         op = ops[i]
         edges = ['ret_to_caller', 'ret_obj_of_callee']
-        if any(isinstance(a, (list, dict)) for a in op['args']):
-            edges += ['args_in_callee', 'args_caller_after']
+        if any(isinstance(a, (list, dict)) for a in list(op['args']) + list(op.get('kwargs', {}).values())):
+            edges += ['args_in_callee', 'args_in_callee', 'args_caller_after']
         if op['query'] == 'list_dir':
             edges += ['list_dir_result'] * 3
         if op['query'] == 'walk':
@@ -316,8 +319,8 @@ def shrink_candidates(case):
             o2 = dict(op)
             o2.pop('child')
             yield dict(case, ops=case['ops'][:i] + [o2] + case['ops'][i + 1:])
-        if op['args'] and not any(m['op_index'] == i and m['edge'].startswith('args') for m in case['muts']):
-            yield dict(case, ops=case['ops'][:i] + [dict(op, args=[])] + case['ops'][i + 1:])
+        if (op['args'] or op.get('kwargs')) and not any(m['op_index'] == i and m['edge'].startswith('args') for m in case['muts']):
+            yield dict(case, ops=case['ops'][:i] + [dict(op, args=[], kwargs={})] + case['ops'][i + 1:])
         if op.get('query') and not any(m['op_index'] == i and m['edge'] in ('list_dir_result', 'walk_result') for m in case['muts']):
             yield dict(case, ops=case['ops'][:i] + [dict(op, query=None)] + case['ops'][i + 1:])
 
